@@ -325,12 +325,8 @@ def expandText (args : List (List Ch)) : List Ch → List Ch × Bool
       | [] => ([], true)                       -- the index byte is the NUL
       | i :: rest' =>
         if i - 1 < 0 ∨ i - 1 ≥ args.length then ([], true)
-        else
-          let (t, b) := expandText args rest'
-          (normText (args.getD (i - 1).toNat []) ++ t, b)
-    else
-      let (t, b) := expandText args rest
-      (c :: t, b)
+        else (normText (args.getD (i - 1).toNat []) ++ (expandText args rest').1, (expandText args rest').2)
+    else (c :: (expandText args rest).1, (expandText args rest).2)
 
 inductive ExpRes where
   | ok (text : List Ch)
